@@ -285,6 +285,16 @@ func scribble(xs []int) {
 
 func clone(xs []int) []int { return append([]int(nil), xs...) }
 
+// outOfRange runs an implementation call whose argument lies outside [0,n) on its own: a panic of the
+// implementation is passed on (the case ends with `panic`, as in the Model); if the implementation returns,
+// that is what the output line says — the oracle is not consulted and cannot mask either behaviour.
+func outOfRange(call func()) string {
+	if kind := hx.Try(call); kind != "" {
+		panic("implementation: index out of range (" + kind + ")")
+	}
+	return "ok returned-for-out-of-range-argument"
+}
+
 func wstr(w float64) (string, bool) {
 	i := int64(w)
 	return strconv.FormatInt(i, 10), float64(i) == w
@@ -509,7 +519,10 @@ func execOp(gp **gobj, f []string, i int, bad func(int, string, ...any), tags ma
 				return "bad-op"
 			}
 			if !valid(v) {
+				// outside the property's domain: only the implementation is run (the oracle would index out
+				// of range itself); the Model says `panic`, anything else shows up as a difference
 				*argOOR = true
+				return outOfRange(func() { p.To(v) })
 			}
 			path, found := p.To(v)
 			check(v, path, found)
@@ -902,6 +915,7 @@ func execOp(gp **gobj, f []string, i int, bad func(int, string, ...any), tags ma
 		tags["spt"] = true
 		if !valid(s) {
 			*argOOR = true
+			return outOfRange(func() { g.wd.ShortestPathTree(s) })
 		}
 		t := g.wd.ShortestPathTree(s)
 		want := g.shortest(s)
@@ -961,7 +975,7 @@ func execOp(gp **gobj, f []string, i int, bad func(int, string, ...any), tags ma
 			}
 			if !valid(v) {
 				*argOOR = true
-				t.PathTo(v) // panics
+				return outOfRange(func() { t.PathTo(v) })
 			}
 			first := answer(v)
 			for k := range lastPath {
